@@ -89,6 +89,13 @@ class Obj(object):
         return "<%s>" % self.name
 
 
+class Rec(Obj):
+    """a stand-in record: an object of the model that only carries attributes (a parsed header, a packet under construction)"""
+    def __init__(self, name, **attrs):
+        Obj.__init__(self, name)
+        self.attrs = dict(attrs)
+
+
 class MiniEval(object):
     def __init__(self, repo, folder, fi, symbolic=(), max_steps=20000, self_attrs=None, stubs=None, stop_at=()):
         self.self_attrs = dict(self_attrs or {})      # constant instance attributes of the receiver (self.buf = b"...")
@@ -292,6 +299,8 @@ class MiniEval(object):
             base[self.ev(t.slice, env)] = v
         elif isinstance(t, ast.Attribute) and isinstance(t.value, ast.Name) and env.get(t.value.id) == ("<self>",):
             self.self_attrs[t.attr] = v           # the receiver's attributes are the evaluation's own state
+        elif isinstance(t, ast.Attribute) and isinstance(self.ev(t.value, env), Rec):
+            self.ev(t.value, env).attrs[t.attr] = v
         else:
             raise Undecided("minieval: assignment target %s" % norm(t))
 
@@ -330,6 +339,13 @@ class MiniEval(object):
                 seen = [ci] + list(getattr(ci, "bases", []))
                 for c in seen:
                     if e.attr in c.consts:
+                        # (a class-body expression may name other class constants: the constant folder knows that scope)
+                        try:
+                            fv = self.folder.class_attr(c, e.attr)
+                        except Exception:
+                            fv = None
+                        if isinstance(fv, (int, str, bytes, float)) and not isinstance(fv, bool):
+                            return fv
                         sub = MiniEval(self.repo, self.folder, self.fi, self.symbolic, self.max_steps)
                         return sub.ev(c.consts[e.attr][-1], {})
         if isinstance(e, ast.Name) and e.id in self.fi.module.assigns:
@@ -451,6 +467,15 @@ class MiniEval(object):
         if isinstance(e, ast.Attribute):
             if norm(e) in PURE_FUNCS:
                 return ("<fn>", norm(e))
+            if isinstance(e.value, (ast.Name, ast.Attribute)) and not (isinstance(e.value, ast.Name) and e.value.id not in env):
+                try:
+                    b0 = self.ev(e.value, env)
+                except Undecided:
+                    b0 = None
+                if isinstance(b0, Rec):
+                    if e.attr in b0.attrs:
+                        return b0.attrs[e.attr]
+                    raise Raised("AttributeError", (e.attr,))
             if isinstance(e.value, ast.Name) and env.get(e.value.id) == ("<self>",) and e.attr in self.self_attrs:
                 return self.self_attrs[e.attr]
             try:
